@@ -18,8 +18,8 @@ MODULE = 'Sbepp.Properties.C18'
 THEOREMS = [
     'Sbepp.Properties.C18.traits_copy_attributes',
     'Sbepp.Properties.C18.ref_attributes',
-    'Sbepp.Properties.C18.ref_deprecated_full_false',
-    'Sbepp.Properties.C18.ref_deprecated_partial',
+    'Sbepp.Properties.C18.ref_deprecated_full',
+    'Sbepp.Properties.C18.traits_deprecated_own',
     'Sbepp.Properties.C18.entities_complete',
     'Sbepp.Properties.C18.entities_sound',
     'Sbepp.Properties.C18.traits_derived',
@@ -270,7 +270,9 @@ def run(chk):
         'message/group size_bytes(...) traits are covered by C05; ids/versions that do not fit their fixed C++ types '
         'and text needing escapes in string literals are C07 matters and are not generated here',
         'refs: the specification is doc/traits.md ("use the traits of the referred type") with the ref\'s own name, '
-        'offset, sinceVersion and deprecated',
+        'offset, sinceVersion and deprecated (a ref without the attribute has no deprecated(): the generator declares '
+        'the inherited member deleted, which the detection idiom of the dumper reads as absent under every '
+        'configured compiler and standard)',
     ]
 
 
